@@ -204,7 +204,7 @@ def build_native(scratch, release=False):
     return exe
 
 
-def run_native_batch(exe, scratch, cases, timeout=120):
+def run_native_batch(exe, scratch, cases, timeout=120, msg_prefix=None):
     """cases: list of (harness, [ints]); returns list of dict(outcome, obs, panic, checks) or None on hang/crash"""
     bpath = os.path.join(scratch, "batch.%d.txt" % os.getpid())
     with open(bpath, "w") as f:
@@ -213,6 +213,7 @@ def run_native_batch(exe, scratch, cases, timeout=120):
     timeout = int(timeout * SLOW["factor"])
     env = dict(os.environ)
     env["VRT_BATCH"] = bpath
+    env["VRT_PREFIX"] = msg_prefix or ""
     env["RUST_BACKTRACE"] = "0"
     try:
         p = subprocess.run([exe, "verif_rt::vrt_replay_entry", "--exact", "--nocapture", "--test-threads", "1"],
@@ -309,7 +310,7 @@ mod verif_expand_a2l {
     return {"dsl_bytes": len(body), "generated_lines": gen.count("\n"), "shipped_lines": shipped.count("\n")}
 
 
-def explore(scratch, mirpath, harness, procs, timeout, known, max_steps=2_000_000, export_smt=None):
+def explore(scratch, mirpath, harness, procs, timeout, known, max_steps=2_000_000, export_smt=None, msg_prefix=None):
     outdir = os.path.join(scratch, "e2out")
     os.makedirs(outdir, exist_ok=True)
     timeout = int(timeout * SLOW["factor"])
@@ -318,6 +319,8 @@ def explore(scratch, mirpath, harness, procs, timeout, known, max_steps=2_000_00
            "--known", ",".join(known)]
     if export_smt:
         cmd += ["--export-smt", export_smt]
+    if msg_prefix:
+        cmd += ["--msg-prefix", msg_prefix]
     env = dict(os.environ)
     env["MIRSYM_SLOW"] = "%.2f" % SLOW["factor"]
     p = subprocess.run(cmd, cwd=C.VERIF, stdout=subprocess.PIPE, stderr=subprocess.PIPE, text=True, env=env)
